@@ -1,1 +1,56 @@
-def main : IO Unit := pure ()
+import NfcVerif.Model.T3
+import NfcVerif.Model.T4
+/-!
+Line-protocol driver of the Type 3 / Type 4 tag models (parts `t34` of C01, C02, C03).
+
+  t3.see <mem>                     -> ok <seen> | exc <Name>
+  t3.set <mem> <data>              -> none | <res> cmds=<blk>+<n>:<hex>,.. mem=<hex>   | exc <Name>
+  t4.see <nl><sa> <cc> <file> <fid> <mle> <mlc>
+  t4.set <nl><sa> <cc> <file> <fid> <mle> <mlc> <data>  -> none | <res> cmds=<off>:<hex>,.. mem=<hex>
+(<nl><sa>: two characters 0/1, the repairs present in the tree: NLEN loop, short APDU limits)
+-/
+open NfcVerif NfcVerif.T34
+
+def showRes : Py Unit → String
+  | .ok _ => "ok"
+  | .error e => "exc " ++ e.name
+
+def joinC (l : List String) : String := if l.isEmpty then "-" else ",".intercalate l
+
+def t3Trace (t : T3.Trace) : String :=
+  showRes t.res ++ " cmds=" ++ joinC (t.sent.map fun c => s!"{c.blk}+{c.n}:{toHex c.data}") ++ " mem=" ++ toHex t.mem
+
+def t4Trace (t : T4.Trace) : String :=
+  showRes t.res ++ " cmds=" ++ joinC (t.sent.map fun c => s!"{c.off}:{toHex c.data}") ++ " mem=" ++ toHex t.file
+
+def parseVar (s : String) : Option T4.Variant :=
+  match s.toList with
+  | [a, b] => some ⟨a = '1', b = '1'⟩
+  | _ => none
+
+def card (cc file fid mle mlc : String) : Option T4.Card :=
+  match parseHex cc, parseHex file, parseHex fid, mle.toNat?, mlc.toNat? with
+  | some cc, some f, some fid, some e, some c => some ⟨cc, f, fid, e, c⟩
+  | _, _, _, _, _ => none
+
+def handle (line : String) : String :=
+  match line.splitOn " " with
+  | ["t3.see", m] => match parseHex m with
+    | some m => showPy showSeen (T3.see m) | _ => "bad-op"
+  | ["t3.set", m, d] => match parseHex m, parseHex d with
+    | some m, some d => (match T3.setOctets m d with
+      | .error e => "exc " ++ e.name
+      | .ok none => "none"
+      | .ok (some t) => t3Trace t)
+    | _, _ => "bad-op"
+  | ["t4.see", v, cc, f, fid, e, c] => match parseVar v, card cc f fid e c with
+    | some v, some cd => showPy showSeen (T4.see v cd) | _, _ => "bad-op"
+  | ["t4.set", v, cc, f, fid, e, c, d] => match parseVar v, card cc f fid e c, parseHex d with
+    | some v, some cd, some d => (match T4.setOctets v cd d with
+      | .error e => "exc " ++ e.name
+      | .ok none => "none"
+      | .ok (some t) => t4Trace t)
+    | _, _, _ => "bad-op"
+  | _ => "bad-op"
+
+def main : IO Unit := runDriver handle
